@@ -100,7 +100,7 @@ func (s *Sim) CloneCompare(flushFirst bool) {
 		}
 	}
 	img := ms.DB.Clone()
-	node := NewNode(r, s.w, NodeCfg{UtxoCacheMax: s.n.cfg.UtxoCacheMax}, &fixedStore{img})
+	node := NewNode(r, s.w, NodeCfg{UtxoCacheMax: s.n.cfg.UtxoCacheMax, Prune: s.n.cfg.Prune}, &fixedStore{img})
 	node.Time = s.n.Time
 	if err := node.Open(); err != nil {
 		r.Violate("C04", "reopen-succeeds", "", "opening a fresh instance on a clone of the live database (flushed=%v): %v", flushFirst, err)
@@ -112,7 +112,7 @@ func (s *Sim) CloneCompare(flushFirst bool) {
 	if m := node.CompareUtxo(node.Chain, tip); m != "" {
 		r.Violate("C03", "persisted-equals-in-memory", "", "fresh instance on a clone (flushed=%v) at tip %v: %s", flushFirst, tip, m)
 	}
-	if m := node.CompareJournal(node.Chain, tip, nil); m != "" {
+	if m := node.CompareJournal(node.Chain, tip, node.prunedFn()); m != "" {
 		r.Violate("C03", "persisted-equals-in-memory", "", "fresh instance on a clone (flushed=%v): %s", flushFirst, m)
 	}
 	r.Event("clone-compare", "flushed=%v tip=%v", flushFirst, tip)
@@ -169,10 +169,8 @@ func (s *Sim) reopenImage(img *memdb.DB, n int, what string) *Node {
 	if m := node.CompareUtxo(node.Chain, tip); m != "" {
 		r.Violate("C04", "recovered-utxo-equals-fold", "", "%s after commit %d of the workload, recovered tip %v: %s", what, n, tip, m)
 	}
-	if s.n.cfg.Prune == 0 {
-		if m := node.CompareJournal(node.Chain, tip, nil); m != "" {
-			r.Violate("C04", "recovered-utxo-equals-fold", "", "%s after commit %d, tip %v: %s", what, n, tip, m)
-		}
+	if m := node.CompareJournal(node.Chain, tip, node.prunedFn()); m != "" {
+		r.Violate("C04", "recovered-utxo-equals-fold", "", "%s after commit %d, tip %v: %s", what, n, tip, m)
 	}
 	// R3: blocks acknowledged before the crash point are still known
 	for _, b := range s.w.Blocks[1:] {
@@ -184,7 +182,7 @@ func (s *Sim) reopenImage(img *memdb.DB, n int, what string) *Node {
 		if err != nil || !have {
 			r.Violate("C04", "acked-blocks-known", "", "%s after commit %d: block %v was acknowledged at commit %d but HaveBlock=%v err=%v", what, n, b, ac, have, err)
 		}
-		if s.n.cfg.Prune == 0 || b.IsAncestorOf(tip) && tip.Height-b.Height < 2 {
+		if pr := node.prunedFn(); pr == nil || !pr(b.Hash) {
 			blk, err := node.Chain.BlockByHash(&b.Hash)
 			if err != nil {
 				// side-chain blocks are not served by BlockByHash: only judge main chain
